@@ -1104,7 +1104,7 @@ func singleUseClose(c *Ctx, f *ssa.Function) (bool, string) {
 		for _, s := range sites {
 			if s.Fn.Name() == "Close" && s.Fn.Signature.Recv() != nil {
 				tn := eng.TypeName(s.Fn.Signature.Recv().Type())
-				if tn == mainPkg+".listenerSet" {
+				if tn == mainM(c).lsT {
 					// the registry must drop its entries after calling them
 					dropped := false
 					for _, b := range s.Fn.Blocks {
